@@ -42,7 +42,9 @@ MANIFEST = dict(
           "each sampled history is replayed through sigdrv (bulk/flush/rotate/restart) and after every step the real `*` answer "
           "per stream is compared per unique id: flattened names, values, timestamp, exactly once. Value classes are "
           "concretised per VERIF_SEED (nesting, arrays, escapes/unicode, boundary numbers, bool, null/absent, sparse/late "
-          "columns, cardinality 500/501/502, constant/varying encoded length, near-limit values, the 65534-record block cut)."),
+          "columns incl. several late columns per block, the field-less record, several escaped strings per event, cardinality "
+          "500/501/502, constant/varying encoded length, near-limit values, the 65534-record block cut, event times not "
+          "monotone in ingest order with partially overlapping segments)."),
     note=("Histories are exhaustive only inside the small bounds (<=4-5 abstract events, <=2-3 flushes, <=1-2 rotations, <=1 "
           "restart); bigger ones are sampled with -simulate. Values are sampled per seed from boundary pools, not all JSON. "
           "uint64 above int64 max and other numbers outside int64 are compared as float64 (the statement quantifies over "
@@ -276,6 +278,7 @@ class Concretiser:
         self.constlen = profile == "constlen" or (profile in ("card", "cap") and self.rnd.random() < 0.5)
         self.last_ts = {s: T0 + self.rnd.randrange(0, 10 ** 6) for s in streams}
         self.big_done = False
+        self.bare_ts = {}
         self.seq = 0
 
     # -- values
@@ -335,10 +338,13 @@ class Concretiser:
         out = []
         kinds = self.kinds[cls]
         abstract_time = self.profile == "ooo" and "ats" in act and self.mult == 1
+        # the field-less record: a class without any column is a document with nothing but its timestamp (no id
+        # either); it is identified by its (unique) timestamp, or only counted when it has none (`{}`)
+        bare = all(k == "absent" for k in kinds.values())
         for n_aid, aid in enumerate(act["ids"]):
             for j in range(self.mult):
                 cid = "e%d_%d" % (aid, j)
-                ev = {"id": cid}
+                ev = {} if bare else {"id": cid}
                 # the class shapes the first concrete event; copies made by the multiplication advance by 1 ms
                 # (except same / none), so that 1000 x "far" does not run centuries ahead
                 if abstract_time:
@@ -346,6 +352,15 @@ class Concretiser:
                     ts = None if tsc == "none" else T0 + 10 ** 9 + act["ats"][n_aid] * 1000
                 else:
                     ts = self.ts_for(s, tsc if (j == 0 or tsc in ("same", "none")) else "inc1")
+                if bare and ts is not None:
+                    used = self.bare_ts.setdefault(s, set())
+                    while ts in used:
+                        ts += 1
+                    used.add(ts)
+                    self.last_ts[s] = max(self.last_ts[s], ts) if tsc != "back" else self.last_ts[s]
+                    cid = "@ts:%d" % ts
+                elif bare:
+                    cid = "@anon:%d_%d" % (aid, j)
                 if ts is not None:
                     ev["timestamp"] = ts
                 for c in self.cols:
@@ -439,6 +454,14 @@ class Oracle:
         self.sent[cid] = (stream, exp, ts if ts is not None else window)
         self.by_aid.setdefault(aid, []).append(cid)
 
+    def rid(self, r):
+        """identity of a returned record: its id field; a record without id is a field-less event, identified by its
+        timestamp when we sent one with that timestamp, else anonymous (None)"""
+        if r.get("id") is not None:
+            return r.get("id")
+        key = "@ts:%s" % r.get("timestamp")
+        return key if key in self.sent else None
+
     def expand(self, aids):
         out = set()
         for a in aids:
@@ -456,9 +479,32 @@ class Oracle:
         must = self.expand(obs["must"])
         may = self.expand(obs["may"])
         seen = {}
+        anon = []          # records without id whose timestamp is not that of a field-less event we sent with one
         for r in recs:
-            cid = r.get("id")
+            cid = self.rid(r)
+            if cid is None:
+                anon.append(r)
+                continue
             seen[cid] = seen.get(cid, 0) + 1
+        must_anon = {c for c in must if c.startswith("@anon:")}
+        may_anon = {c for c in may if c.startswith("@anon:")}
+        must, may = must - must_anon, may - may_anon
+        if len(anon) < len(must_anon):
+            bad.append(("visible:flushed-event-missing", "%s: %d flushed field-less events (sent as {}) expected on %s, %d returned" % (
+                stage, len(must_anon), stream, len(anon))))
+        elif len(anon) > len(must_anon) + len(may_anon):
+            bad.append(("visible:invented", "%s: `*` on %s returned %d records without any field, at most %d were sent, e.g. %r" % (
+                stage, stream, len(anon), len(must_anon) + len(may_anon), anon[0])))
+        else:
+            wins = [self.sent[c][2] for c in (must_anon | may_anon)]
+            for r in anon:
+                if not any(w[0] - 5 <= (r.get("timestamp") or 0) <= w[1] + 5 for w in wins):
+                    bad.append(("timestamp:arrival", "%s: field-less record %r does not carry an arrival time of a {} document" % (stage, r)))
+                    break
+                extra_fields = {k: v for k, v in r.items() if k != "timestamp" and v is not None}
+                if extra_fields:
+                    bad.append(("field:field-invented", "%s: a {} document came back with fields %r" % (stage, extra_fields)))
+                    break
         dup = [c for c, n in seen.items() if n > 1]
         if dup:
             bad.append(("visible:duplicate", "%s: %s returned %d times (and %d more duplicated ids)" % (stage, dup[0], seen[dup[0]], len(dup) - 1)))
@@ -481,8 +527,8 @@ class Oracle:
             relax.add(".".join(str(x) for x in self.conc.colmap[stream][c]))
         kinds_seen = set()
         for n, r in enumerate(recs):
-            cid = r.get("id")
-            if cid not in self.sent or self.sent[cid][0] != stream:
+            cid = self.rid(r)
+            if cid is None or cid not in self.sent or self.sent[cid][0] != stream:
                 continue
             _, exp, ts = self.sent[cid]
             got = dict(r)
@@ -493,7 +539,7 @@ class Oracle:
             elif gts != ts:
                 bad.append(("timestamp", "%s: %s sent timestamp %r got %r" % (stage, cid, ts, gts)))
             if light and n % 997 != 0:
-                if got.get("id") != cid:
+                if got.get("id") != cid and not cid.startswith("@"):
                     bad.append(("value:string", "id mismatch"))
                 continue
             for suffix, detail in compare_record(exp, got, relax):
@@ -614,6 +660,25 @@ def sparse_score(beh):
     return best
 
 
+def bare_block_score(beh):
+    """number of flushed blocks that consist only of field-less events (class without any column) + WIP contents of
+    that kind dropped or flushed later: the field-less record as the whole content of a flush"""
+    kinds = beh["kinds"]
+    barecls = {c for c, k in kinds.items() if all(v == "absent" for v in k.values())}
+    cl = {}
+    for st in beh["steps"]:
+        if st["act"]["a"] == "ingest":
+            for i in st["act"]["ids"]:
+                cl[i] = st["act"]["cls"]
+    n = 0
+    for obs in beh["steps"][-1]["obs"].values():
+        for sg in obs["lay"]:
+            for blk in sg["blocks"]:
+                if all(cl[i] in barecls for i in blk["ids"]):
+                    n += 1
+    return n
+
+
 def overlap_score(beh):
     """From the spec's abstract block time ranges: over ordered pairs of segments (A, B) of a stream where B starts
     and ends later than A and reaches into A (partial overlap), the number of A's blocks that lie wholly before B's
@@ -672,6 +737,7 @@ def run(chk):
     sim = gen(chk, "Gen_LogStore_rt_sim.cfg", "Gen_LogStore_rt_sim", simulate="num=%d" % (150 if quick else 1500), depth=12,
               seed=seed)
     # several late-appearing / sparse columns per block (class table of 6 columns, 5 classes)
+    bare = gen(chk, "Gen_LogStore_bare.cfg", "Gen_LogStore_bare")   # the field-less record, alone in a block or not
     txt = gen(chk, "Gen_LogStore_txt.cfg", "Gen_LogStore_txt")      # several string columns per event
     ooo = gen(chk, "Gen_LogStore_ooo.cfg", "Gen_LogStore_ooo")      # event times not monotone in ingest order
     late = gen(chk, "Gen_LogStore_late.cfg", "Gen_LogStore_late")
@@ -710,6 +776,7 @@ def run(chk):
         add(txt, 16, "escapes", "txt-escapes")
         add(txt, 10, "plain", "txt")
         add_stratified(ooo, 40, "ooo", score=overlap_score, profile="ooo")
+        add_stratified(bare, 30, "bare", score=bare_block_score)
     else:
         add(rt, 1500, "plain", "rt")
         add(rt2, 700, "plain", "rt2")
@@ -724,6 +791,7 @@ def run(chk):
         add(txt, 250, "escapes", "txt-escapes")
         add(txt, 150, "plain", "txt")
         add_stratified(ooo, 600, "ooo", score=overlap_score, profile="ooo")
+        add_stratified(bare, 400, "bare", score=bare_block_score)
     # the statement's un-relaxed case: numeric-looking strings next to numbers (fixed classes)
     def same_block(b):
         cl = {}
